@@ -19,11 +19,25 @@ int xv_dnstc_any_errno(void)
     return e;
 }
 
-/* TRUSTED(common/util.c) ut_memdup, same text */
+/* TRUSTED(libc) memcpy(3), EXACT (text of CBMC's own library model).  env/base.h replaces memcpy by an over-approximation
+ * that keeps 9 bytes only (made for 64 KiB frames); track_create's copy of the address list (<= 640 bytes) must be exact
+ * (the families in it decide which addresses are tried), so ut_memdup below copies with this one. */
+void *xv_memcpy_exact(void *dst, const void *src, size_t n)
+{
+    __CPROVER_assert(n == 0 || __CPROVER_r_ok(src, n), "memcpy source region readable");
+    __CPROVER_assert(n == 0 || __CPROVER_w_ok(dst, n), "memcpy destination region writeable");
+    if (n > 0) {
+        char src_n[n];
+        __CPROVER_array_copy(src_n, (char *)src);
+        __CPROVER_array_replace((char *)dst, src_n);
+    }
+    return dst;
+}
+/* TRUSTED(common/util.c) ut_memdup: same text as util.c, memcpy = the exact model above */
 void *ut_memdup(const void *ptr, size_t size)
 {
     void *copy = ut_malloc(size);
-    memcpy(copy, ptr, size);
+    xv_memcpy_exact(copy, ptr, size);
     return copy;
 }
 
